@@ -86,6 +86,12 @@ func (g *Gen) leaf() *Tree {
 		if g.chance(0.15) {
 			// everything but the subtracted class
 			t.N.Rs, t.N.Neg = [][2]int{{0, 0x10FFFF}}, false
+		} else if g.c.Shorthands && g.chance(0.25) {
+			// a base made of a shorthand only, or of a shorthand next to the ranges: [\w-[a]], [\da-b-[b]]
+			t.N.Cls = []string{"w", "d", "s", "W"}[g.pick(4)]
+			if g.chance(0.5) {
+				t.N.Rs, t.N.Neg = [][2]int{}, false
+			}
 		}
 	}
 	return t
@@ -581,7 +587,14 @@ func (g *Gen) SparsePattern(rtl bool) *Tree {
 func (g *Gen) sampleMatch(t *Tree, out *[]int, caps map[*Tree][]int) {
 	switch t.N.Op {
 	case "chr":
-		if !t.N.Neg {
+		if !t.N.Neg && (len(t.N.Rs) == 0 || (t.N.Cls != "" && g.chance(0.5))) {
+			// a class whose base is (also) a shorthand
+			m := map[string][]int{"d": {'1', '7'}, "w": {'a', 'b', '_', '5', 0xe9}, "W": {' ', '-', '\n'}, "s": {' ', '\n', '\t'}}[t.N.Cls]
+			if len(m) == 0 {
+				m = []int{'a'}
+			}
+			*out = append(*out, m[g.pick(len(m))])
+		} else if !t.N.Neg {
 			r := t.N.Rs[g.pick(len(t.N.Rs))]
 			*out = append(*out, r[0]+g.pick(r[1]-r[0]+1))
 		} else {
